@@ -175,7 +175,8 @@ class TermBuilder:
                 r = _root_name(n.target.value)
                 if r and isinstance(n.target.value, ast.Name):
                     self.mutated.setdefault(r, []).append(n)
-            elif isinstance(n, ast.Call) and isinstance(n.func, ast.Attribute) and n.func.attr in ALL_MUTATOR_METHODS:
+            elif isinstance(n, ast.Call) and isinstance(n.func, ast.Attribute) and n.func.attr in ALL_MUTATOR_METHODS and n.func.attr != "setflags":
+                # (x.setflags(write=False) changes who may write x, not its value: an ownership matter - sa/heap.py - not a term matter)
                 if isinstance(n.func.value, ast.Name):
                     self.mutated.setdefault(n.func.value.id, []).append(n)
             if isinstance(n, ast.Call):
